@@ -43,6 +43,7 @@ type User struct {
 
 	onArbitrary func(map[string]string)
 	profileKeys []string
+	persistAll  bool // an application that stores the whole map it is handed (it relies on the whitelist)
 }
 
 // Clone returns a deep copy.
@@ -203,6 +204,12 @@ func (u *User) PutArbitrary(m map[string]string) {
 	}
 	if u.Arbitrary == nil {
 		u.Arbitrary = map[string]string{}
+	}
+	if u.persistAll {
+		for k, v := range m {
+			u.Arbitrary[k] = v
+		}
+		return
 	}
 	for _, k := range u.profileKeys {
 		if v, ok := m[k]; ok {
